@@ -165,6 +165,11 @@ const TICK: f64 = 1e-3;
 const EPS: f64 = 1e-6;
 /// tokio clamps sleeps it cannot represent to "30 years from now"; above this only a lower bound is checked
 const HORIZON: f64 = 1e8;
+/// virtual time after which delays are no longer judged (see the loop over the gaps)
+const CLOCK_RANGE: f64 = 1000.0 * 365.0 * 86_400.0;
+/// a sleep between this and 2^63 s is representable for tokio but takes ~10^8 clock hops or saturates the clock;
+/// no such policy is generated (u64::MAX s itself is clamped by tokio to 30 years)
+const SLOW_SLEEP: f64 = 1e14;
 
 fn run_case(c: &Case, known: &Known, via_env: bool) -> Verdict {
     let Ok(mult) = c.multiplier.parse::<f64>() else {
@@ -298,7 +303,14 @@ fn run_case(c: &Case, known: &Known, via_env: bool) -> Verdict {
     let mut sum_hi = 0.0f64;
     let mut cur = initial_s; // initial * m^k
     let (mut hinted_gap, mut hint_over_max, mut clamped, mut exact_checked) = (false, false, false, false);
+    let mut clock_range_exceeded = false;
     for (k, &gap) in gaps.iter().enumerate() {
+        // tokio's virtual clock counts u64 milliseconds and saturates: once the call has slept for more than
+        // 1000 years in total the measurements are no longer meaningful (a single unrepresentable sleep is 30 years)
+        if (times[k + 1] - times[0]).as_secs_f64() > CLOCK_RANGE {
+            clock_range_exceeded = true;
+            break;
+        }
         match outs[k] {
             Out::Hinted(ms) => {
                 let h = ms as f64 / 1000.0;
@@ -348,7 +360,7 @@ fn run_case(c: &Case, known: &Known, via_env: bool) -> Verdict {
     }
     // 6. no waiting outside the delays above ("wait for ever")
     let total = (end - times[0]).as_secs_f64();
-    if total > sum_hi + TICK {
+    if !clock_range_exceeded && total > sum_hi + TICK {
         return Verdict::fail(K_TOTAL, format!("call took {total}s of virtual time, the delays are bounded by {sum_hi}s; {}", ctx()));
     }
 
@@ -370,6 +382,8 @@ fn run_case(c: &Case, known: &Known, via_env: bool) -> Verdict {
         .class_if(a >= 4, "max_attempts>=4")
         .class_if(via_env, "via-from_env")
         .class_if(env_differs, "from_env-fields-differ-from-text")
+        .class_if(clock_range_exceeded, "virtual-clock-range-exceeded")
+        .class_if(gaps.iter().any(|g| *g > HORIZON), "slept-unrepresentable-delay")
 }
 
 // ---------------------------------------------------------------------------
@@ -435,12 +449,12 @@ fn sym_strategy() -> impl Strategy<Value = Out> {
 
 fn sampled_strategy() -> BoxedStrategy<Case> {
     // grid values first (shrinking moves towards them), then a few off-grid ones
-    let initials: Vec<Duration> = INITIALS.into_iter().chain([Duration::from_millis(7), Duration::from_secs(3600), Duration::from_secs(u64::MAX), Duration::MAX]).collect();
+    let initials: Vec<Duration> = INITIALS.into_iter().chain([Duration::from_millis(7), Duration::from_secs(3600)]).collect();
     let maxes: Vec<Duration> = MAXES.into_iter().chain([Duration::from_millis(50), Duration::from_secs(86_400 * 365)]).collect();
     let mults: Vec<&'static str> = MULTS.into_iter().chain(["1.5", "3", "inf", "-inf", "-0", "1e-30", "1.7976931348623157e308"]).collect();
     (
         prop_oneof![1 => 0u32..=3, 5 => 4u32..=5],
-        proptest::sample::select(initials),
+        prop_oneof![12 => proptest::sample::select(initials), 1 => proptest::sample::select(vec![Duration::from_secs(u64::MAX), Duration::MAX])],
         proptest::sample::select(maxes),
         proptest::sample::select(mults),
         any::<bool>(),
@@ -448,6 +462,10 @@ fn sampled_strategy() -> BoxedStrategy<Case> {
     )
         .prop_map(|(a, i, mx, mu, j, mut script)| {
             script.truncate(a as usize + 2);
+            // keep the documented delays min(initial*m^k, max) out of the range the virtual clock cannot walk through
+            let m: f64 = mu.parse().unwrap_or(0.0);
+            let d1 = (i.as_secs_f64() * m).min(mx.as_secs_f64());
+            let mu = if m > 0.0 && m < 1.0 && d1 >= SLOW_SLEEP { "0" } else { mu };
             Case { max_attempts: a, initial_backoff: i, max_backoff: mx, multiplier: mu.to_string(), jitter: j, script }
         })
         .boxed()
